@@ -45,8 +45,8 @@ def verify(src):
         shutil.rmtree(tmp, ignore_errors=True)
 
 
-def run_checks(sid, props):
-    d = os.path.join(SEEDED, sid)
+def run_checks(sid, props, base=None):
+    d = os.path.join(base or SEEDED, sid)
     tmp, dst = scratch()
     try:
         p = subprocess.run(['patch', '-p1', '-s', '-d', dst], input=open(os.path.join(d, 'patch.diff')).read(), text=True, capture_output=True)
@@ -78,6 +78,23 @@ def main():
                     'needs_to_manifest': open(os.path.join(src, 'README.md')).read()[:1500], 'confirmed': r['ran'], 'caught_by': None}
             json.dump(meta, open(os.path.join(d, 'meta.json'), 'w'), indent=1)
         return 0 if r['ok'] else 1
+    if a[0] == 'silent':
+        # behaviour-preserving refactorings: every check must stay silent
+        base = os.path.join(VERIF, 'selftest', 'refactorings')
+        jobs = 4
+        ids = [x for x in a[1:] if not x.startswith('--')]
+        if '--jobs' in a:
+            jobs = int(a[a.index('--jobs') + 1]); ids = [x for x in ids if x != str(jobs)]
+        ids = ids or sorted(os.listdir(base))
+        props = ['C%02d' % i for i in range(1, 21)]
+        with ThreadPoolExecutor(jobs) as ex:
+            for sid, res in ex.map(lambda s: run_checks(s, props, base), ids):
+                if '_apply' in res:
+                    print('%-14s APPLY-FAIL %s' % (sid, res['_apply'][:200])); continue
+                loud = {p: r[1] for p, r in res.items() if r[0] != 0}
+                print('%-14s %s %s' % (sid, 'SILENT' if not loud else 'FALSE-ALARM', '; '.join('%s[%s]' % (p, ','.join(r)) for p, r in loud.items())))
+                sys.stdout.flush()
+        return 0
     if a[0] == 'matrix':
         jobs = 4
         ids = [x for x in a[1:] if not x.startswith('--')]
